@@ -89,6 +89,12 @@ pub fn seeds() -> Vec<(&'static str, Module)> {
             .def("C", Ty::int_range(IntRange { lo: Bound::Lit(1), hi: Bound::Max, ext: true }))
             .def("D", Ty::int_range(IntRange::lit(0, 255).ext())),
     ));
+    // S14: bounds of different widths: one character less or one token swapped gives a reversed range whose
+    // bounds select different integer types
+    out.push((
+        "s14-wide-ranges",
+        Module::new("Wide").def("A", Ty::int_r(1000, 2000)).def("B", Ty::int_r(-300, -5)).def("C", Ty::int_r(100, 255)).def("D", Ty::seq(vec![Comp::new("x", Ty::int_r(70000, 300000)), Comp::new("y", Ty::int_r(-40000, -1))])),
+    ));
     // S10: string DEFAULTs with a space inside the quotes
     out.push((
         "s10-literals",
